@@ -296,6 +296,50 @@ pub fn gen_lzma2(t: &mut Tape, max_total: u64, strict_order: bool) -> Lzma2Built
     }
 }
 
+/// LZMA2 stream of 1-2 LZMA chunks whose unpacked sizes sit on the boundaries of
+/// the 5+16-bit size field: 65536*h + d (h 1..3, d in {-1, 0, 0, +1}), built from
+/// cheap long matches so that the payload stays small.
+pub fn gen_lzma2_size_boundary(t: &mut Tape) -> Lzma2Built {
+    let mut w = Lzma2Writer::new();
+    let mut note = String::new();
+    let n = t.range(1, 2);
+    for i in 0..n {
+        let h = t.range(1, 3);
+        let target = (h * 65536) as i64 + [0i64, 0, -1, 1][t.below(4) as usize];
+        let reset: u8 = if i == 0 { 3 } else { t.below(4) as u8 };
+        let newp = if reset >= 2 { Some(gen::draw_props(t, true)) } else { None };
+        let ts = w.enc.trace.len();
+        let start = w_start(&w);
+        w.begin_lzma_chunk(reset, newp);
+        let b = t.byte();
+        let _ = w.enc.encode(Sym::Lit(b));
+        let _ = w.enc.encode(Sym::Lit(b.wrapping_add(1)));
+        let dist = t.range(1, 2) as u32;
+        while (w.enc.model.out.len() as u64) < start + target as u64 {
+            let left = start + target as u64 - w.enc.model.out.len() as u64;
+            let len = left.min(273);
+            if len < 2 {
+                let _ = w.enc.encode(Sym::Lit(b));
+            } else {
+                let _ = w.enc.encode(Sym::Match { dist, len: len as u32 });
+            }
+        }
+        if !w.end_lzma_chunk(reset, ts) {
+            break;
+        }
+        note.push_str(&format!("L{}[{}] ", reset, target));
+    }
+    w.end();
+    Lzma2Built {
+        ps: gen::ProgStats::default(),
+        bytes: std::mem::take(&mut w.bytes),
+        expect: std::mem::take(&mut w.enc.model.out),
+        chunks: std::mem::take(&mut w.chunks),
+        trace: std::mem::take(&mut w.enc.trace),
+        note,
+    }
+}
+
 fn w_start(w: &Lzma2Writer) -> u64 {
     // output length at the start of the chunk being built
     w.chunks
